@@ -68,7 +68,14 @@ def wl_row(t, fn=None):
         t = strip(t[1])
     if isinstance(t, tuple) and t and t[0] in ("gamma", "phi") and t[2]:     # `if pol { &neg[v] } else { &pos[v] }`
         return all(wl_row(v, fn) for _, v in t[2])
-    if not (isinstance(t, tuple) and t and t[0] == "call" and t[1].name in ("index", "index_mut") and len(t[2]) == 2):
+    if isinstance(t, tuple) and t and t[0] == "call" and t[1].name not in ("index", "index_mut") and \
+            (t[1].local or getattr(t[1], "res_local", False)):
+        # a private accessor that selects the row (`watchers_mut(pos, neg, lit)`): its body with the arguments in place
+        from .base import expand
+        e = expand(t)
+        return e is not None and wl_row(e, fn)
+    builtin = isinstance(t, tuple) and t and t[0] == "index" and len(t) >= 3      # indexing of a slice parameter
+    if not builtin and not (isinstance(t, tuple) and t and t[0] == "call" and t[1].name in ("index", "index_mut") and len(t[2]) == 2):
         return False
 
     def table(x):
@@ -76,7 +83,7 @@ def wl_row(t, fn=None):
         if isinstance(x, tuple) and x and x[0] in ("gamma", "phi"):      # `if lit.polarity() { &mut pos } else { &mut neg }`
             return bool(x[2]) and all(table(v) for _, v in x[2])
         return is_wl(x) or (fn is not None and is_wl_local(fn, x))
-    return table(t[2][0])
+    return table(t[1] if builtin else t[2][0])
 
 
 def space(fn, t, depth=0):
